@@ -20,6 +20,8 @@ type C07Case struct {
 	// Share: equal non-empty container subtrees of A are stored as ONE instance (a DAG); the generator
 	// then duplicates a container child of A so that such subtrees exist
 	Share bool `json:"share,omitempty"`
+	// Muts: mutations of (nested) containers of A after the first comparisons; Equals is evaluated again after each
+	Muts []CloneMut `json:"muts,omitempty"`
 }
 
 func equalityTreeCfg() TreeCfg {
@@ -227,6 +229,9 @@ func GenC07(t *rapid.T) *C07Case {
 	}
 	b, rel := deriveEq(t, a, cfg)
 	c := &C07Case{A: a, B: b, Rel: rel, Share: share}
+	if oneIn(t, 4, "recompare") {
+		c.Muts = genNestedMuts(t)
+	}
 	if oneIn(t, 3, "triple") {
 		cc, rel2 := deriveEq(t, b, cfg)
 		if oneIn(t, 3, "tcopy") {
@@ -328,6 +333,37 @@ func CheckC07(c *C07Case, st *Stats) error {
 		}
 		if !before[i].Same(after) {
 			return errf("Equals modified operand %s: %s -> %s", names[i], before[i].Tree.Show(), after.Tree.Show())
+		}
+	}
+	// A changes (also deep inside, through the nested containers' own handles): Equals must follow
+	for i, m := range c.Muts {
+		ids := Idents(impl[0])
+		target := ids[m.Node%len(ids)]
+		var applied bool
+		if p, panicked := catch(func() { applied = applyCloneMut(impl[0], target, m) }); panicked {
+			return errf("mutation %d (%s) panicked: %v", i, m.Op, p)
+		}
+		if !applied {
+			continue
+		}
+		nowA, err := Snap(impl[0])
+		if err != nil {
+			return err
+		}
+		st.Count("recompared_after." + m.Op)
+		for j := 1; j < len(trees); j++ {
+			want := EqV(nowA, trees[j])
+			ab, p1, pan1 := eq2(impl[0], impl[j])
+			ba, p2, pan2 := eq2(impl[j], impl[0])
+			if pan1 || pan2 {
+				return errf("Equals panicked after a %s on a nested container of a: %v %v", m.Op, p1, p2)
+			}
+			if ab != want || ba != want {
+				return errf("after a %s on a nested container of a: a.Equals(%s) = %v, %s.Equals(a) = %v, typed structural equality says %v\n a = %s\n %s = %s", m.Op, names[j], ab, names[j], ba, want, nowA.Show(), names[j], trees[j].Show())
+			}
+		}
+		if self, _, _ := eq2(impl[0], impl[0]); !self {
+			return errf("after a %s a no longer Equals itself: %s", m.Op, nowA.Show())
 		}
 	}
 	nt := func(rel string) bool {
